@@ -190,4 +190,4 @@ def replay(ctx, case):
 def run(ctx):
     q = ctx.quick
     ctx.hyp("records", record_case(), check_record, 1500 if q else 10000)
-    ctx.hyp("pipeline", pipeline_case(), check_pipeline, 15 if q else 80)
+    ctx.hyp("pipeline", pipeline_case(), check_pipeline, 35 if q else 120)
